@@ -493,6 +493,13 @@ def _solve_nodes(p, t):
     """the public call on the solver's own grid nodes 0..r2 (max(r) = r2, so no interpolation
     error except in the small-radius region the solver itself interpolates)"""
     s = construct(p)
+    # "at every time": the solver object has already served a request at another time (a value
+    # cached from an earlier call must not leak into this one)
+    t0 = 0.37 * t + 0.11
+    try:
+        s(np.linspace(0.0, r2_of(s, t0), 4)[1:], t0)
+    except Exception:
+        pass
     r2 = r2_of(s, t)
     r = np.linspace(0.0, r2, NGRID)
     sol = s(r, t)
@@ -740,7 +747,8 @@ def _check_rh(c):
     scale = [abs(st[0][0]), abs(st[0][0] * Ds), abs(st[0][0] * Ds * Ds)]
     names = ('mass', 'momentum', 'energy')
     for i in range(3):
-        if abs(st[0][i] - st[1][i]) > 2e-5 * scale[i]:
+        # 5e-4: steep vacuum-type profiles next to the shock reach 9e-5 on the unchanged tree (seed 2)
+        if abs(st[0][i] - st[1][i]) > 5e-4 * scale[i]:
             return dict(site='Sedov:rankine-hugoniot:' + names[i],
                         detail='D=%r flux ahead %r behind %r' % (Ds, st[0][i], st[1][i]))
     rho1, rho2 = g(pre, 'density'), g(post, 'density')
@@ -908,3 +916,48 @@ def _check_admit(c):
 
 accepts = _catalogue([dict(label=l, params=q) for l, q in ADMISSIBLE_EDGE], _check_admit, 'sedov.admit',
                    extra=O.make(lambda rng: dict(label='random', params=sample(rng)), _check_admit, 'sedov.admit.random'))
+
+
+# ---- "at every time": an object that has already answered at one time answers correctly at another ----
+TWO_TIMES_CASES = [
+    dict(geometry=3, gamma=1.4, rho0=1.0, omega=2.4, eblast=5.4567),      # Kamm & Timmes vacuum case
+    dict(geometry=2, gamma=1.4, rho0=1.0, omega=1.7, eblast=2.67315),     # Kamm & Timmes vacuum case
+    dict(geometry=3, gamma=1.4, rho0=1.0, omega=0.0, eblast=0.851072),    # standard
+    dict(geometry=3, gamma=1.4, rho0=1.0, omega=7. / 3. + 1e-6, eblast=4.90875),   # singular band
+]
+
+
+def two_times(rng, budget, deep, replay=None):
+    """energy and mass integrals at time t2 from an object first used at t1, against the same
+    integrals from a fresh object (any difference means state carried over between calls) and,
+    on the regular cases, against the blast energy / initial mass"""
+    res = dict(evaluations=0, distinct_nontrivial=0, failures=[], samples=[])
+    cases = TWO_TIMES_CASES if deep else TWO_TIMES_CASES[:2] + [TWO_TIMES_CASES[rng.randrange(2, 4)]]
+    for p in cases:
+        for (t1, t2) in ((1.0, 0.5), (0.4, 1.3)):
+            try:
+                used = construct(p)
+                used(np.linspace(0.0, r2_of(used, t1), 4)[1:], t1)
+                k = p['geometry']
+                r2 = r2_of(used, t2)
+                r = np.linspace(0.0, r2, NGRID)
+                a, b = used(r, t2), construct(p)(r, t2)
+            except Exception:
+                continue
+            res['evaluations'] += 2
+            res['distinct_nontrivial'] += 1
+            if not res['samples']:
+                res['samples'].append(dict(params=p, t1=t1, t2=t2))
+            w = r ** (k - 1)
+            vals = []
+            for sol in (a, b):
+                rho, u, pr = (np.asarray(sol[n], dtype=float) for n in ('density', 'velocity', 'pressure'))
+                vals.append((Ak(k) * _trapz((0.5 * rho * u ** 2 + pr / (p['gamma'] - 1.0)) * w, r), Ak(k) * _trapz(rho * w, r)))
+            (e_used, m_used), (e_fresh, m_fresh) = vals
+            if abs(e_used - e_fresh) > 1e-9 * abs(e_fresh) or abs(m_used - m_fresh) > 1e-9 * abs(m_fresh):
+                res['failures'].append(dict(
+                    site='Sedov:integrals:earlier-call',
+                    detail='after a call at t=%g the energy/mass behind the shock at t=%g are %r / %r; a fresh object gives %r / %r'
+                           % (t1, t2, e_used, m_used, e_fresh, m_fresh), case=dict(params=p, t1=t1, t2=t2)))
+                return res
+    return res
